@@ -13,10 +13,16 @@
     root-to-leaf label paths of the category forest [f]; [levels f] Categories.levels of the
     chart data (leaf level first, idx = offset of the first leaf); [kept ct l] = [l] except
     for the pie types where it is the first element of [l]; [cat_text b f D l] the text
-    reported for label [l] (see [C07_label_text]). *)
+    reported for label [l] (see [C07_label_text]).
+    A plot holds its c:ser elements in DOCUMENT sequence ([p_sers]); [plot_sers] / [area_sers]
+    sort them by c:order within each plot.  No theorem about replace_data supposes that the
+    two sequences agree or that c:order values are contiguous or confined to one plot.
+    [keeps tags s' s]: same idx, same order, same children other than the data children
+    [tags]; [doc_marks tags p]: (idx, order, other children) of the c:ser of [p] in document
+    sequence; [subseq a b]: [a] is [b] with some elements left out. *)
 From V.lib Require Import Prelude Wire Calendar.
 From V.model Require Import ChartData.
-From V.proofs Require Import ChartData_proofs.
+From V.proofs Require Import ChartData_proofs ChartDataOrder_proofs.
 Local Open Scope Z_scope.
 
 (** values: every series, every position, None where the value was missing, empty series
@@ -206,6 +212,54 @@ Theorem C07_trim : forall k ps,
   area_sers_of (trim k ps) = firstn (length (area_sers_of ps) - k) (area_sers_of ps).
 Proof. exact area_sers_trim. Qed.
 Print Assumptions C07_trim.
+
+(** which series a shrinking replace_data leaves, on ANY start state (series stored out of
+    c:order sequence, c:order with gaps, interleaved across the plots of a combination
+    chart): exactly the first n of plotArea.sers, each with its idx, order and every child
+    that is not a data child *)
+Theorem C07_shrink_survivors : forall sc d c c', replace sc d c = Ok c' ->
+  (data_len d <= length (area_sers c))%nat ->
+  exists rk, rewriter_kind c = Ok rk /\
+  Forall2 (keeps (rk_tags rk)) (area_sers c') (firstn (data_len d) (area_sers c)).
+Proof. exact shrink_survivors. Qed.
+Print Assumptions C07_shrink_survivors.
+
+(** replace_data never moves a c:ser in the document: when series are removed every plot keeps
+    a subsequence of its document sequence and the plots left with none are gone; otherwise
+    every plot keeps frame and whole sequence, the new series come in between *)
+Theorem C07_replace_document_order : forall sc d c c', replace sc d c = Ok c' ->
+  exists rk, rewriter_kind c = Ok rk /\
+  let tags := rk_tags rk in
+  if Nat.ltb (data_len d) (length (area_sers c)) then
+    exists M, Forall2 (fun m p => subseq m (doc_marks tags p)) M (ch_plots c) /\
+              map (doc_marks tags) (ch_plots c') = filter nonempty M
+  else
+    Forall2 (fun p' p => frame p' = frame p /\ subseq (doc_marks tags p) (doc_marks tags p'))
+            (ch_plots c') (ch_plots c).
+Proof. exact replace_document_order. Qed.
+Print Assumptions C07_replace_document_order.
+
+(** non-vacuity on a foreign start state: two plots, document sequence order 9 2 5 | 7 3, idx
+    4 8 0 | 6 1, plotArea.sers idx 8 0 4 | 1 6.  Two series leave idx 8 and 0 standing where
+    they stood: the c:ser removed from the first plot is the FIRST of the document (removal by
+    document position would have kept idx 4 and 8); four series keep the c:ser that is LAST
+    in the document *)
+Example C07_ex_foreign_shrink : exists c2 c4,
+  replace std_succs w_two foreign_chart = Ok c2 /\
+  map s_idx (area_sers foreign_chart) = [8; 0; 4; 1; 6] /\
+  map s_order (area_sers foreign_chart) = [2; 5; 9; 3; 7] /\
+  map s_idx (concat (map p_sers (ch_plots foreign_chart))) = [4; 8; 0; 6; 1] /\
+  map s_idx (area_sers c2) = [8; 0] /\ map s_order (area_sers c2) = [2; 5] /\
+  map (doc_marks [tg_tx; tg_cat; tg_val]) (ch_plots c2) =
+    [[(8, 2, [KOther tg_spPr 2]); (0, 5, [KOther tg_spPr 3])]] /\
+  map frame (ch_plots c2) = [(pt_bar, 1%N)] /\
+  chart_names c2 = [[115%N]; [116%N]] /\
+  replace std_succs w_four foreign_chart = Ok c4 /\
+  map (doc_marks [tg_tx; tg_cat; tg_val]) (ch_plots c4) =
+    [[(4, 9, [KOther tg_spPr 1]); (8, 2, [KOther tg_spPr 2]); (0, 5, [KOther tg_spPr 3])]; [(1, 3, [KOther tg_spPr 5])]] /\
+  chart_names c4 = [[97%N]; [98%N]; [99%N]; [100%N]] /\
+  (data_len w_two < length (area_sers foreign_chart))%nat.
+Proof. exact foreign_shrink. Qed.
 
 (** inside the property's domain replace_data can fail *)
 Theorem C07_replace_no_series_refuted :
